@@ -9,10 +9,12 @@ import (
 )
 
 func init() {
-	for _, bad := range []string{"invalid-yaml", "unknown-receiver", "late-bad-ca", "late-bad-template"} {
+	for _, bad := range []string{"invalid-yaml", "unknown-receiver", "late-bad-ca", "late-bad-template", "late-bad-tracing"} {
 		for _, via := range []string{"api", "http"} {
 			register("C17", "rejected-"+bad+"-"+via, c17Scenario)
 		}
+		// C01: after ANY rejected reload a newly posted alert is still delivered, per the old routing
+		register("C01", "rejected-"+bad+"-api", c17Scenario)
 	}
 }
 
@@ -142,6 +144,10 @@ func c17Scenario(s *sc) {
 		c := confB
 		c.Receivers = append(hook("r0", "r2", "r3"), Recv{Name: "rbad", Hooks: []Hook{{BadCA: true}}})
 		c.Root.Routes = append(append([]Route{}, c.Root.Routes...), Route{Receiver: "rbad", Matchers: []string{`never="matches"`}})
+		bad = c.YAML(in.Sink)
+	case strings.Contains(kind, "late-bad-tracing"):
+		c := confB
+		c.BadTracing = true
 		bad = c.YAML(in.Sink)
 	case strings.Contains(kind, "late-bad-template"):
 		p, err := in.WriteFile("broken.tmpl", "{{ define \"x\" }}{{ .Foo ")
